@@ -9,9 +9,12 @@ the `form_integral*` tables of `C/form.py` and the sub-domain part of `_compute_
   offsets_delimit            offsets delimit the groups — integrals with ANY number of domains           [full]
   kernels_of_type            slice [offsets[t],offsets[t+1]) of the emitted table = type t's rows        [full]
   expand_ids / listed_iff    kernels under (type,id) = integrals whose id tuple contains id              [full]
-  formIR_accepts / formIR_rejects   accepted ⇒ known type and every user id ≥ 0; any id < 0 is rejected [full]
+  formIR_accepts / formIR_rejects / formIR_rejects_large
+                             accepted ⇒ known type and every user id in [0, 2³¹−1]; any id < 0 or > 2³¹−1 is rejected [full]
+  formIR_ids_in_range        every stored id (and every entry of form_integral_ids) lies in [−1, 2³¹−1]   [full]
+  otherwise_not_folded       rows under an explicit id come only from integrals declaring that id        [full]
   minus_one_only_otherwise   a row with id −1 comes from an integral whose tuple contains 'otherwise'    [full]
-  dispatch                   end-to-end: table rows visited for type t ~ expected rows                   [full]
+  dispatch                   end-to-end: (id, name, tag) rows visited for type t ~ expected rows (Perm)  [full]
   prism_offsets              the former F6 witness (prism ds(1)+ds(2)+dP) now gets [0,0,4,4,5,5]
 
 History: before the fix commits "form_integral_offsets must count one kernel per (integral, domain)
@@ -242,9 +245,10 @@ theorem listed_iff (n : Nat) (itgs : List ItgData) (gs : List Group) (h : formIR
     exact ⟨d, ⟨hd, hty⟩, s, hs, rfl⟩
 
 /-- **`formIR_accepts`** (full).  What is accepted: every integral has a known type and every user id
-(everything except 'otherwise') is non-negative — as the error message says. -/
+(everything except 'otherwise') is non-negative — as the error message says — and at most 2³¹−1
+(the second guard, commit 9a772cd). -/
 theorem formIR_accepts (n : Nat) (itgs : List ItgData) (gs : List Group) (h : formIR n itgs = .ok gs) :
-    ∀ d ∈ itgs, d.itype < n ∧ ∀ i, SubId.num i ∈ d.subIds → 0 ≤ i := by
+    ∀ d ∈ itgs, d.itype < n ∧ ∀ i, SubId.num i ∈ d.subIds → 0 ≤ i ∧ i ≤ 2147483647 := by
   have := (formIRLoop_ok (List.replicate n []) itgs gs h).2.2
   simpa using this
 
@@ -253,7 +257,7 @@ theorem formIR_rejects (n : Nat) (pre : List ItgData) (d : ItgData) (post : List
     (i : Int) (hs : SubId.num i ∈ d.subIds) (hneg : i < 0) :
     ∀ gs, formIR n (pre ++ d :: post) ≠ .ok gs := by
   intro gs h
-  have := (formIR_accepts n _ gs h d (by simp)).2 i hs
+  have := ((formIR_accepts n _ gs h d (by simp)).2 i hs).1
   omega
 
 /-- … and the rejection is the ValueError with the documented message when it is the first problem -/
@@ -261,6 +265,45 @@ theorem formIR_rejects_message (n : Nat) (d : ItgData) (post : List ItgData)
     (i : Int) (hs : SubId.num i ∈ d.subIds) (hneg : i < 0) :
     formIR n (d :: post) = .error "Integral subdomain IDs must be non-negative." := by
   simp [formIR, formIRLoop, formIRStep_neg _ d i hs hneg]
+
+/-- **`formIR_rejects_large`** (full).  ANY user id above 2³¹−1 anywhere makes `_compute_form_ir` fail
+(it would not fit the C `int` array `form_integral_ids`). -/
+theorem formIR_rejects_large (n : Nat) (pre : List ItgData) (d : ItgData) (post : List ItgData)
+    (i : Int) (hs : SubId.num i ∈ d.subIds) (hbig : 2147483647 < i) :
+    ∀ gs, formIR n (pre ++ d :: post) ≠ .ok gs := by
+  intro gs h
+  have := ((formIR_accepts n _ gs h d (by simp)).2 i hs).2
+  omega
+
+/-- … with the second message when it is the first problem (no negative id in the same tuple: the
+negative test comes first) -/
+theorem formIR_rejects_large_message (n : Nat) (d : ItgData) (post : List ItgData)
+    (i : Int) (hs : SubId.num i ∈ d.subIds) (hbig : 2147483647 < i)
+    (hnn : ∀ j, SubId.num j ∈ d.subIds → 0 ≤ j) :
+    formIR n (d :: post) = .error "Integral subdomain IDs must fit a 32-bit signed integer." := by
+  simp [formIR, formIRLoop, formIRStep_large _ d i hs hbig hnn]
+
+/-- **`formIR_ids_in_range`** (full).  Every id `_compute_form_ir` stores in `FormIR.subdomain_ids` — hence
+every entry of the C array `int form_integral_ids[]` emitted from it (`emitIds`) — lies in
+`[−1, 2³¹−1]`: it is representable in a 32-bit signed `int`, and −1 is the only negative value. -/
+theorem formIR_ids_in_range (n : Nat) (itgs : List ItgData) (gs : List Group)
+    (h : formIR n itgs = .ok gs) (t : Nat) (ht : t < n) :
+    (∀ e ∈ gs.getD t [], -1 ≤ e.id ∧ e.id ≤ 2147483647)
+    ∧ (∀ i ∈ emitIds (gs.getD t []), -1 ≤ i ∧ i ≤ 2147483647) := by
+  have hent : ∀ e ∈ gs.getD t [], -1 ≤ e.id ∧ e.id ≤ 2147483647 := by
+    intro e he
+    obtain ⟨d, hd, _, s, hs, rfl⟩ := (listed_iff n itgs gs h t ht e).mp he
+    cases s with
+    | otherwise => simp [SubId.toInt]
+    | num i =>
+      have := (formIR_accepts n itgs gs h d hd).2 i hs
+      simp only [SubId.toInt]
+      omega
+  refine ⟨hent, ?_⟩
+  intro i hi
+  simp only [emitIds, List.mem_flatMap, List.mem_map] at hi
+  obtain ⟨e, he, _, _, rfl⟩ := hi
+  exact hent e he
 
 /-- **`minus_one_only_otherwise`** (full).  A row listed under id −1 (the slot UFCx consumers integrate over
 the whole mesh) always comes from an integral whose sub-domain tuple contains 'otherwise'. -/
@@ -273,23 +316,112 @@ theorem minus_one_only_otherwise (n : Nat) (itgs : List ItgData) (gs : List Grou
   cases s with
   | otherwise => exact hs
   | num i =>
-    have := (formIR_accepts n itgs gs h d hd).2 i hs
+    have := ((formIR_accepts n itgs gs h d hd).2 i hs).1
     simp only [SubId.toInt] at hid
     omega
+
+/-- rows an integral contributes under the explicit id `i`: one per occurrence of the NUMBER `i` in its
+tuple ('otherwise' never counts) -/
+def explicitRows (i : Int) (d : ItgData) : List Entry :=
+  (d.subIds.filter (· = SubId.num i)).map (fun _ => ⟨i, d.name, d.domains⟩)
+
+theorem flatMap_congr' {α β} (l : List α) (f g : α → List β) (h : ∀ a ∈ l, f a = g a) :
+    l.flatMap f = l.flatMap g := by
+  induction l with
+  | nil => rfl
+  | cons a l ih =>
+    simp only [List.flatMap_cons]
+    rw [h a (by simp), ih (fun b hb => h b (by simp [hb]))]
+
+theorem entries_filter_id (i : Int) (hi : 0 ≤ i) (d : ItgData)
+    (hd : ∀ j, SubId.num j ∈ d.subIds → 0 ≤ j) :
+    d.entries.filter (fun e => decide (e.id = i)) = explicitRows i d := by
+  simp only [ItgData.entries, explicitRows]
+  generalize hl : d.subIds = l at hd
+  clear hl
+  induction l with
+  | nil => rfl
+  | cons s l ih =>
+    have ih' := ih (fun j hj => hd j (List.mem_cons_of_mem _ hj))
+    cases s with
+    | otherwise =>
+      have h1 : SubId.otherwise.toInt = -1 := rfl
+      have h2 : ¬ ((-1 : Int) = i) := by omega
+      have h3 : ¬ (SubId.otherwise = SubId.num i) := by simp
+      simp only [List.map_cons, List.filter_cons, h1, h2, h3, decide_false]
+      exact ih'
+    | num j =>
+      have h1 : (SubId.num j).toInt = j := rfl
+      by_cases hji : j = i
+      · subst hji
+        simp only [List.map_cons, List.filter_cons, h1, decide_true, if_true]
+        rw [ih']
+      · have h3 : ¬ (SubId.num j = SubId.num i) := by simpa using hji
+        simp only [List.map_cons, List.filter_cons, h1, hji, h3, decide_false]
+        exact ih'
+
+/-- **`otherwise_not_folded`** (full; the `do_append_everywhere_integrals=False` direction).  In an accepted
+form, the rows listed under an EXPLICIT id `i ≥ 0` of type `t` are exactly: every integral of type `t`,
+once per occurrence of the number `i` in its tuple, in declaration order.  An 'otherwise' (everywhere)
+integral is therefore NOT folded into the explicit ids: an integral whose tuple consists of 'otherwise'
+only contributes no row under any explicit id, and every row under an explicit id names an integral
+that declares that id. -/
+theorem otherwise_not_folded (n : Nat) (itgs : List ItgData) (gs : List Group)
+    (h : formIR n itgs = .ok gs) (t : Nat) (ht : t < n) (i : Int) (hi : 0 ≤ i) :
+    (gs.getD t []).filter (fun e => decide (e.id = i))
+        = (itgs.filter (·.itype == t)).flatMap (explicitRows i)
+    ∧ (∀ d ∈ itgs, (∀ s ∈ d.subIds, s = SubId.otherwise) → explicitRows i d = [])
+    ∧ (∀ e ∈ gs.getD t [], e.id = i →
+        ∃ d ∈ itgs, d.itype = t ∧ SubId.num i ∈ d.subIds ∧ e.name = d.name ∧ e.domains = d.domains) := by
+  have hacc := formIR_accepts n itgs gs h
+  refine ⟨?_, ?_, ?_⟩
+  · rw [(expand_ids n itgs gs h).2 t ht]
+    simp only [expectedGroup, List.filter_flatMap]
+    apply flatMap_congr'
+    intro d hd
+    have hd' : d ∈ itgs := (List.mem_filter.mp hd).1
+    exact entries_filter_id i hi d (fun j hj => ((hacc d hd').2 j hj).1)
+  · intro d _ hall
+    simp only [explicitRows, List.map_eq_nil_iff, List.filter_eq_nil_iff]
+    intro s hs
+    rw [hall s hs]
+    simp
+  · intro e he hid
+    obtain ⟨d, hd, hty, s, hs, rfl⟩ := (listed_iff n itgs gs h t ht e).mp he
+    refine ⟨d, hd, hty, ?_, rfl, rfl⟩
+    cases s with
+    | otherwise => simp only [SubId.toInt] at hid; omega
+    | num j =>
+      simp only [SubId.toInt] at hid
+      subst hid
+      exact hs
 
 /-- the former witness `u*v*dx(-1)` is now rejected -/
 theorem explicit_minus_one_rejected :
     formIR 5 [⟨0, [.num (-1)], "k", [3]⟩] = .error "Integral subdomain IDs must be non-negative." :=
   formIR_rejects_message 5 _ [] (-1) (by simp) (by decide)
 
+/-- the boundary of the second guard: `dx(2³¹−1)` is accepted, `dx(2³¹)` is rejected; a tuple with a
+negative AND a too large id gets the first message -/
+theorem large_id_boundary :
+    formIR 5 [⟨0, [.num 2147483647], "k", [3]⟩] = .ok [[⟨2147483647, "k", [3]⟩], [], [], [], []]
+    ∧ formIR 5 [⟨0, [.num 2147483648], "k", [3]⟩]
+        = .error "Integral subdomain IDs must fit a 32-bit signed integer."
+    ∧ formIR 5 [⟨0, [.num 2147483648, .num (-3)], "k", [3]⟩]
+        = .error "Integral subdomain IDs must be non-negative." := by
+  refine ⟨rfl, rfl, rfl⟩
+
 /-! ### end to end -/
 
 /-- **`dispatch`** (full).  From UFL's integral data to the C tables: if `_compute_form_ir` accepts the
 integrals, then for every integral type `t` and every admissible argsort result the rows
-`(id, kernel, domain)` a UFCx consumer visits between `form_integral_offsets[t]` and `[t+1]` are a
-permutation of: every integral of type `t`, once per id of its tuple and per domain cell type — hence
-the kernels visited for `(t, id)` are exactly the integrals declared for that id (each kernel
-accumulates into `A`, property C07, so applying them one after another adds the declared integrands). -/
+`(id, kernel name, domain tag)` a UFCx consumer visits between `form_integral_offsets[t]` and `[t+1]`
+are a permutation (`List.Perm`) of: every integral of type `t`, once per id of its tuple and per
+domain cell type.  This is a statement about the (id, name, tag) TRIPLES of the table only — which
+kernels are listed under which (type, id), with multiplicities.  It says nothing about what the listed
+kernels compute: that applying them one after another ADDS the declared integrands is not a theorem
+here; it is property C07 (each kernel accumulates into `A`) plus the summation search of
+`harness/props/c06.py` (differential against separately compiled single-integrand forms). -/
 theorem dispatch (itgs : List ItgData) (gs : List Group) (πs : List (List Nat))
     (n : Nat) (h : formIR n itgs = .ok gs) (hπ : ArgsortAll πs gs) (t : Nat) (ht : t < n) :
     (slice (intData πs gs).offsets t (emit (List.zipWith sortGroup πs gs).flatten)).Perm
@@ -315,6 +447,12 @@ example : ∃ gs, formIR 5 demoItgs = .ok gs ∧ ArgsortAll demoPerms gs
     ∧ (intData demoPerms gs).names = ["d", "a", "c", "a", "d", "b", "e"]
     ∧ (intData demoPerms gs).offsets = [0, 5, 6, 6, 7, 7] :=
   ⟨_, rfl, by decide, by decide, by decide, by decide⟩
+
+/-- `otherwise_not_folded` on `demoItgs`: under the explicit id 1 of type 0 only "a" and "c" are listed — not "d",
+whose tuple holds 'otherwise' and 7; the pure 'otherwise' integral "b" contributes no explicit row -/
+example : ∃ gs, formIR 5 demoItgs = .ok gs
+    ∧ (gs.getD 0 []).filter (fun e => decide (e.id = 1)) = [⟨1, "a", [3]⟩, ⟨1, "c", [3]⟩]
+    ∧ explicitRows 1 ⟨1, [.otherwise], "b", [1]⟩ = [] := ⟨_, rfl, by decide, by decide⟩
 
 example : IsArgsort [3, 1, 1, -1] [3, 2, 1, 0] := by
   refine ⟨by decide, by decide⟩
